@@ -12,7 +12,20 @@ import GA.Drv.FillE
 import GA.Drv.ArrE
 import GA.Drv.ConstE
 import GA.Drv.TypesE
+import GA.Drv.BodyE
 open GA.Drv
+
+/-- `--body` view: answers computed by interpreting the regenerated function bodies -/
+def answerLineBody (line : String) : String :=
+  match (line.trimAscii.toString.splitOn " ").filter (· ≠ "") with
+  | seq :: engine :: rest =>
+    let kv := parseKV rest
+    let body := match engine with
+      | "iterq" => BodyE.iterq kv
+      | "own" => BodyE.own kv
+      | _ => "n/a"
+    s!"{seq} {body}"
+  | _ => "bad-line"
 
 def answerLine (line : String) : String :=
   match (line.trimAscii.toString.splitOn " ").filter (· ≠ "") with
@@ -41,14 +54,14 @@ def answerLine (line : String) : String :=
     s!"{seq} {body}"
   | _ => "bad-line"
 
-partial def loop (h : IO.FS.Stream) (out : IO.FS.Stream) : IO Unit := do
+partial def loop (h : IO.FS.Stream) (out : IO.FS.Stream) (body : Bool) : IO Unit := do
   let line ← h.getLine
   if line.isEmpty then return ()
-  if line.trimAscii.toString.isEmpty then loop h out else
-  out.putStrLn (answerLine line)
-  loop h out
+  if line.trimAscii.toString.isEmpty then loop h out body else
+  out.putStrLn (if body then answerLineBody line else answerLine line)
+  loop h out body
 
-def main : IO Unit := do
+def main (args : List String) : IO Unit := do
   let out ← IO.getStdout
-  loop (← IO.getStdin) out
+  loop (← IO.getStdin) out (args.contains "--body")
   out.flush
